@@ -1,1 +1,605 @@
-def help_dec(chk, program): pass
+"""rules_help.py -- the hand-written helpers of utils.py, specialised at database constants.
+
+Partial evaluation (sym.SymExec with parameters bound to literals, helper-of-helper
+calls inlined) turns e.g. decode_number(D, 16, 16, True, 0.001, -32.767, 32.765) into a short
+decision list over the one symbolic input.  The list is canonicalised (Extract terms,
+sign-extension idioms, commutative operands sorted) and compared row by row with the rows the
+database field prescribes.  Constant folding only -- nothing is solved or executed.
+
+Rules: HELP-DEC, NA-RANGE (C01); SENT-AGREE, SIGN-AGREE (C02); ENC-RANGE, ENC-NA (C09);
+HELP-SIB (sibling agreement of date/time/float helpers).
+"""
+from __future__ import annotations
+
+import ast
+
+from . import sym
+from .sym import C, NONE, show
+from .model import AnalysisError
+from .dbspec import NUMBER_LIKE
+
+UT = 'nmea2000/utils.py'
+COMM = {'*', '+', '&', '|', '^'}
+
+def cn(t):
+    """canonical form: commutative operands sorted, a>b -> b<a, a>=b -> b<=a"""
+    if not isinstance(t, tuple) or not t or not isinstance(t[0], str):
+        return t
+    k = t[0]
+    if k in ('const', 'name', 'param'):
+        return t
+    if k == 'binop':
+        a, b = cn(t[2]), cn(t[3])
+        if t[1] in COMM and repr(b) < repr(a):
+            a, b = b, a
+        r = sym.fold_bin(t[1], a, b)
+        return r
+    if k == 'cmp':
+        a, b = cn(t[2]), cn(t[3])
+        op = t[1]
+        if op == '>':
+            op, a, b = '<', b, a
+        elif op == '>=':
+            op, a, b = '<=', b, a
+        if op in ('==', '!=') and repr(b) < repr(a):
+            a, b = b, a
+        return sym.fold_cmp(op, a, b)
+    if k == 'unop':
+        x = cn(t[2])
+        if t[1] == 'not':
+            return sym.mk_not(x)
+        return ('unop', t[1], x)
+    if k == 'bool':
+        return ('bool', t[1], tuple(cn(x) for x in t[2]))
+    if k == 'ite':
+        return sym.mk_ite(cn(t[1]), cn(t[2]), cn(t[3]))
+    if k == 'call':
+        return ('call', cn(t[1]), tuple(cn(a) for a in t[2]), tuple((n, cn(v)) for n, v in t[3]))
+    if k == 'attr':
+        return ('attr', cn(t[1]), t[2])
+    if k == 'sub':
+        return ('sub', cn(t[1]), cn(t[2]))
+    return t
+
+def subst(t, mapping):
+    """replace sub-terms (exact match) bottom-up"""
+    if not isinstance(t, tuple) or not t or not isinstance(t[0], str):
+        return t
+    if t in mapping:
+        return mapping[t]
+    k = t[0]
+    if k in ('const', 'name', 'param'):
+        return t
+    out = [k]
+    for x in t[1:]:
+        if isinstance(x, tuple) and x and isinstance(x[0], str):
+            out.append(subst(x, mapping))
+        elif isinstance(x, tuple):
+            out.append(tuple(subst(y, mapping) if isinstance(y, tuple) and y and isinstance(y[0], str) else
+                             (tuple(subst(z, mapping) if isinstance(z, tuple) and z and isinstance(z[0], str) else z for z in y) if isinstance(y, tuple) else y) for y in x))
+        else:
+            out.append(x)
+    r = tuple(out)
+    return mapping.get(r, r)
+
+def helpers(program):
+    u = program.mod('utils')
+    return {k: v for k, v in u.defs.items() if '.' not in k}
+
+_res_cache = {}
+def residual(program, name, bind):
+    key = (id(program), name, tuple(sorted(bind.items())))
+    if key in _res_cache:
+        return _res_cache[key]
+    hs = helpers(program)
+    if name not in hs:
+        raise AnalysisError(f"anchor utils.{name} vanished")
+    fn = hs[name]
+    params = [a.arg for a in fn.args.args]
+    for p in bind:
+        if p not in params:
+            raise AnalysisError(f"anchor utils.{name} no longer has a parameter {p}")
+    ex = sym.SymExec(fn, bind=bind, inline=hs)
+    try:
+        ex.run()
+    except sym.Unsupported as u:
+        raise AnalysisError(f"utils.{name}: {u}")
+    rows = []
+    for ev in ex.events:
+        if ev[0] in ('return', 'raise'):
+            rows.append((ev[0], tuple(cn(g) for g in sym.conj(ev[1])), cn(ev[2]), ev[-1]))
+        elif ev[0] == 'assert':
+            rows.append(('assert', tuple(cn(g) for g in sym.conj(ev[1])), cn(ev[2]), ev[-1]))
+    _res_cache[key] = rows
+    return rows
+
+D = ('param', '$D')
+OFF = ('param', '$OFF')
+R = ('name', '$R')        # Extract(D, off, n)
+S = ('name', '$S')        # sign-extended R
+V = ('param', '$V')
+Q = ('name', '$Q')        # rounded quotient
+
+def extract_forms(off, n):
+    mask = (1 << n) - 1
+    sh = D if off == C(0) else ('binop', '>>', D, off)
+    forms = [('binop', '&', sh, C(mask)), ('binop', '&', C(mask), sh), ('binop', '%', sh, C(1 << n))]
+    if off == C(0):
+        sh2 = ('binop', '>>', D, C(0))
+        forms += [('binop', '&', sh2, C(mask)), ('binop', '&', C(mask), sh2)]
+    return [cn(f) for f in forms]
+
+def sign_forms(n):
+    sb = 1 << (n - 1)
+    conds = [('cmp', '!=', ('binop', '&', R, C(sb)), C(0)), ('binop', '&', R, C(sb)), ('cmp', '>=', R, C(sb)), ('cmp', '>', R, C(sb - 1)),
+             ('cmp', '==', ('binop', '&', R, C(sb)), C(sb)), ('cmp', '!=', ('binop', '>>', R, C(n - 1)), C(0))]
+    out = []
+    for c in conds:
+        out.append(cn(('ite', c, ('binop', '-', R, C(1 << n)), R)))
+    out.append(cn(('binop', '-', ('binop', '^', R, C(sb)), C(sb))))
+    return out
+
+def norm_rows(rows, mapping_stages):
+    out = rows
+    for mp in mapping_stages:
+        out = [(k, tuple(cn(subst(g, mp)) for g in gs), cn(subst(v, mp)), ln) for (k, gs, v, ln) in out]
+    return out
+
+def _exc_name(t):
+    if t[0] == 'call' and t[1][0] == 'name':
+        return t[1][1]
+    if t[0] == 'name':
+        return t[1]
+    return '?'
+
+def number_tuples(db):
+    """distinct (n, signed, res, min, max, offset?) of decode_number call sites prescribed by the database, with the fields using them"""
+    out = {}
+    for d in db.defs:
+        fields, _ = d.supported_prefix()
+        for f in fields:
+            if f.type in NUMBER_LIKE or f.type in ('TIME', 'DATE'):
+                if f.bit_length is None:
+                    continue
+                key = (f.bit_length, f.signed, f.resolution, f.range_min, f.range_max)
+                out.setdefault(key, []).append((d, f))
+    return out
+
+def expected_na(n, signed):
+    return (1 << (n - 1)) - 1 if signed else (1 << n) - 1
+
+def na_in_db_range(n, signed, res, rmax, offset=None):
+    """the database declares the all-ones / max-positive code a valid value (only decided for exact, integer-valued resolutions)"""
+    if rmax is None or res is None:
+        return False
+    if not (isinstance(res, int) or (isinstance(res, float) and res.is_integer())):
+        return False
+    na = expected_na(n, signed)
+    return na * int(res) + (offset or 0) <= rmax
+
+def help_dec(chk, program, rule='HELP-DEC'):
+    db = program.db
+    tuples = number_tuples(db)
+    nres = 0
+    for (n, signed, res, rmin, rmax), users in sorted(tuples.items(), key=lambda kv: repr(kv[0])):
+        if None in (res, rmin, rmax):
+            chk.violation(rule, f"decode_number@{(n, signed, res, rmin, rmax)}", file='canboat.json', line=0,
+                          expected='Resolution, RangeMin, RangeMax present', found='missing', detail=f"{users[0][0].key}:{users[0][1].dbid}")
+            continue
+        bind = {'data_raw': D, 'bit_offset': OFF, 'bit_length': C(n), 'signed': C(signed), 'resolution': C(res), 'min_value': C(rmin), 'max_value': C(rmax)}
+        rows = residual(program, 'decode_number', bind)
+        nres += 1
+        inst = f"decode_number@bits={n},signed={signed},res={res},range=[{rmin},{rmax}]"
+        users_s = f"{len(users)} fields, e.g. {users[0][0].key}:{users[0][1].dbid}"
+        # stage 1: Extract
+        mp1 = {f: R for f in extract_forms(OFF, n)}
+        r1 = norm_rows(rows, [mp1])
+        if signed:
+            mp2 = {f: S for f in sign_forms(n)}
+            r1 = norm_rows(r1, [mp2])
+        X = S if signed else R
+        line = rows[0][3] if rows else 0
+        # the raw term must be exactly the field's bits: after the rewriting no D may remain
+        leftover = [show(v) for (_, gs, v, _) in r1 for t in (list(gs) + [v]) for s_ in sym.walk(t) if s_ == D]
+        if leftover:
+            chk.violation(rule, f"{inst}::extract", file=UT, line=line, func='decode_number',
+                          expected=f"raw = (data >> BitOffset) & {(1 << n) - 1}" + (f", sign-extended on bit {n - 1}" if signed else ''),
+                          found=[show(v) for (_, gs, v, _) in rows][:2], detail=users_s)
+            continue
+        if signed and any(s_ == R for (_, gs, v, _) in r1 for t in (list(gs) + [v]) for s_ in sym.walk(t)):
+            chk.violation(rule, f"{inst}::sign", file=UT, line=line, func='decode_number',
+                          expected=f"two's complement: raw - {1 << n} when bit {n - 1} is set, on every use of the raw value",
+                          found=[show(v) for (_, gs, v, _) in r1][:3], detail=users_s)
+            continue
+        if not signed and any(s_ == S for (_, gs, v, _) in r1 for t in (list(gs) + [v]) for s_ in sym.walk(t)):
+            chk.violation(rule, f"{inst}::sign", file=UT, line=line, func='decode_number', expected='no sign extension for an unsigned field', found='sign extension', detail=users_s)
+            continue
+        scaled_forms = {cn(('binop', '*', X, C(res)))}
+        SC = ('name', '$SCALED')
+        r2 = norm_rows(r1, [{f: SC for f in scaled_forms}])
+        na = expected_na(n, signed)
+        in_range = na_in_db_range(n, signed, res, rmax, users[0][1].offset)
+        # expected decision list
+        na_cond = cn(('cmp', '==', X, C(na)))
+        exp = []
+        pre = ()
+        if n >= 2:
+            exp.append(('return', (na_cond,), NONE))
+            pre = (sym.mk_not(na_cond),)
+        lo = cn(('cmp', '<', SC, C(rmin))); hi = cn(('cmp', '>', SC, C(rmax)))
+        exp.append(('raise', pre + (lo,), 'ValueError'))
+        exp.append(('raise', pre + (sym.mk_not(lo), hi), 'ValueError'))
+        exp.append(('return', pre + (sym.mk_not(lo), sym.mk_not(hi)), SC))
+        got = [(k, gs, (_exc_name(v) if k == 'raise' else v)) for (k, gs, v, _) in r2 if k in ('return', 'raise')]
+        if res == 1:
+            # X*1 may have been left as X*1 (not folded: X symbolic); both spellings are the same value
+            pass
+        ok = got == exp
+        if not ok and n < 2:
+            # a 1-bit field has no not-available code in the database's convention
+            got_na = [g for g in got if g[0] == 'return' and g[2] == NONE]
+            if got_na:
+                chk.violation(rule, f"{inst}::na-1bit", file=UT, line=line, func='decode_number',
+                              expected='a 1-bit field has no not-available code: both values are data', found=f"value {show(got_na[0][1][0])} reported as None",
+                              detail=users_s)
+                continue
+        chk.check(ok, rule, inst, file=UT, line=line, func='decode_number',
+                  expected=[_row_s(r) for r in exp], found=[_row_s(r) for r in got],
+                  detail=('' if ok else 'residual decision list differs from the database rows; ') + users_s)
+        # NA-RANGE: the database says the top code is a valid value
+        if ok and in_range and n >= 2:
+            for (d, f) in users:
+                if f.offset is not None:
+                    continue    # inconsistent database entry (Signed with an unsigned, offset range): GEN-OFFSET reports it
+                chk.violation('NA-RANGE', f"decode_pgn_{d.suffix}::{f.dbid}", file=UT, line=line, func='decode_number',
+                              expected=f"raw {na} is inside the database range [{rmin},{rmax}] and is reported as a value",
+                              found=f"raw {na} reported as None", detail=f"{n}-bit {'signed' if signed else 'unsigned'} field whose database range includes the all-ones code")
+        elif ok:
+            chk.ok('NA-RANGE', f"bits={n},signed={signed},res={res},max={rmax}", file=UT, line=line, func='decode_number', nontrivial=False)
+    chk.unit('decode_number_residuals', nres)
+    chk.floor('decode_number_residuals', nres, 70)
+    # decode_int: LOOKUP / RESERVED / BINARY raw extraction
+    lens = sorted({f.bit_length for d in db.defs for f in d.supported_prefix()[0] if f.type in ('LOOKUP', 'BITLOOKUP', 'RESERVED', 'SPARE', 'INDIRECT_LOOKUP', 'BINARY', 'STRING_FIX') and f.bit_length})
+    for n in lens:
+        rows = residual(program, 'decode_int', {'data_raw': D, 'bit_offset': OFF, 'bit_length': C(n)})
+        r1 = norm_rows(rows, [{f: R for f in extract_forms(OFF, n)}])
+        got = [(k, gs, v) for (k, gs, v, _) in r1]
+        chk.check(got == [('return', (), R)], rule, f"decode_int@bits={n}", file=UT, line=rows[0][3] if rows else 0, func='decode_int',
+                  expected=f"(data >> BitOffset) & {(1 << n) - 1}", found=[show(v) for (_, _, v, _) in rows])
+    chk.unit('decode_int_residuals', len(lens))
+
+def _row_s(r):
+    k, gs, v = r
+    return f"{k} {v if isinstance(v, str) else show(v)} when " + (' and '.join(show(g) for g in gs) or 'otherwise')
+
+# ---------------------------------------------------------------------------
+# encode side
+# ---------------------------------------------------------------------------
+def enc_number_tuples(db):
+    out = {}
+    for d in db.defs:
+        if not d.encodable():
+            continue
+        for f in d.fields:
+            if f.type in ('NUMBER', 'PGN'):
+                out.setdefault((f.bit_length, f.signed, f.resolution), []).append((d, f))
+    return out
+
+def enc_time_tuples(db):
+    out = {}
+    for d in db.defs:
+        if not d.encodable():
+            continue
+        for f in d.fields:
+            if f.type in ('TIME', 'DURATION'):
+                out.setdefault((f.bit_length, f.signed), []).append((d, f))
+    return out
+
+def quotient_forms(res):
+    q = ('binop', '/', V, C(res))
+    return {cn(('call', ('name', 'int'), (('call', ('name', 'round'), (q,), ()),), ())): 'round',
+            cn(('call', ('name', 'round'), (q,), ())): 'round',
+            cn(('call', ('name', 'int'), (q,), ())): 'trunc',
+            cn(('binop', '//', V, C(res))): 'floor'}
+
+def interval_of(cond, q):
+    """raise-when predicate over q -> allowed closed interval (lo, hi), or None if unrecognised"""
+    c = cond
+    neg = False
+    if c[0] == 'unop' and c[1] == 'not':
+        neg = True; c = c[2]
+    def bound(x):
+        # x is a canonical cmp: (a < b) or (a <= b)
+        if x[0] != 'cmp' or x[1] not in ('<', '<='):
+            return None
+        a, b = x[2], x[3]
+        if a == q and sym.is_const(b):
+            return ('hi', b[1] if x[1] == '<=' else b[1] - 1)     # q <= b
+        if b == q and sym.is_const(a):
+            return ('lo', a[1] if x[1] == '<=' else a[1] + 1)     # a <= q
+        return None
+    if neg and c[0] == 'bool' and c[1] == 'and' and len(c[2]) == 2:
+        bs = [bound(x) for x in c[2]]
+        if None not in bs and {bs[0][0], bs[1][0]} == {'lo', 'hi'}:
+            d = dict(bs)
+            return d['lo'], d['hi']
+    if not neg and c[0] == 'bool' and c[1] == 'or' and len(c[2]) == 2:
+        # q < lo or hi < q
+        lo = hi = None
+        for x in c[2]:
+            if x[0] == 'cmp' and x[1] in ('<', '<='):
+                a, b = x[2], x[3]
+                if a == q and sym.is_const(b):
+                    lo = b[1] if x[1] == '<' else b[1] + 1
+                elif b == q and sym.is_const(a):
+                    hi = a[1] if x[1] == '<' else a[1] - 1
+        if lo is not None and hi is not None:
+            return lo, hi
+    return None
+
+def encode_number_facts(program, n, signed, res):
+    """-> dict(na=<const or None>, conv=<round/trunc/..>, interval=(lo,hi) or None, wrap=<const or None>, problems=[...], line)"""
+    rows = residual(program, 'encode_number', {'value': V, 'bit_length': C(n), 'signed': C(signed), 'resolution': C(res)})
+    facts = {'na': None, 'conv': None, 'interval': None, 'wrap': None, 'problems': [], 'line': rows[0][3] if rows else 0, 'rows': rows,
+             'raise_type': None, 'order_ok': False}
+    none_cond = cn(('cmp', 'is', V, NONE))
+    qf = quotient_forms(res)
+    conv = None
+    for (_, gs, v, _) in rows:
+        for t in list(gs) + [v]:
+            for s_ in sym.walk(t):
+                if s_ in qf:
+                    conv = qf[s_] if conv in (None, qf[s_]) else 'mixed'
+    facts['conv'] = conv
+    r1 = norm_rows(rows, [{f: Q for f in qf}])
+    rr = [(k, gs, v, ln) for (k, gs, v, ln) in r1 if k in ('return', 'raise')]
+    # row 1: value is None
+    if rr and rr[0][0] == 'return' and rr[0][1] == (none_cond,) and sym.is_const(rr[0][2]):
+        facts['na'] = rr[0][2][1]
+        rest = rr[1:]
+    else:
+        facts['problems'].append('first decision is not `value is None -> constant`')
+        rest = rr
+    # row 2: range raise before any other return
+    if rest and rest[0][0] == 'raise':
+        g = [x for x in rest[0][1] if x != sym.mk_not(none_cond)]
+        if len(g) == 1:
+            facts['interval'] = interval_of(g[0], Q)
+        facts['raise_type'] = _exc_name(rest[0][2])
+        facts['order_ok'] = all(r[0] == 'return' for r in rest[1:])
+        rets = rest[1:]
+    else:
+        rets = rest
+    # return value
+    if len(rets) == 1:
+        v = rets[0][2]
+        if v == Q:
+            facts['wrap'] = 0
+        else:
+            for w in (cn(('ite', ('cmp', '<', Q, C(0)), ('binop', '+', C(1 << n), Q), Q)),):
+                if v == w:
+                    facts['wrap'] = 1 << n
+            if facts['wrap'] is None and v[0] == 'ite':
+                # generic: (K + Q if Q < 0 else Q)
+                c, a, b = v[1], v[2], v[3]
+                if c == cn(('cmp', '<', Q, C(0))) and b == Q and a[0] == 'binop' and a[1] == '+' and Q in (a[2], a[3]):
+                    k = a[2] if a[3] == Q else a[3]
+                    if sym.is_const(k):
+                        facts['wrap'] = k[1]
+            if facts['wrap'] is None and v[0] == 'binop' and v[1] == '&' and Q in (v[2], v[3]):
+                k = v[2] if v[3] == Q else v[3]
+                if sym.is_const(k) and k[1] == (1 << n) - 1:
+                    facts['wrap'] = 1 << n
+        facts['ret'] = v
+    else:
+        facts['problems'].append(f"{len(rets)} returning rows after the range test")
+    return facts
+
+def decoder_na(program, n, signed):
+    """the constant K of the decoder's `raw == K -> None` row for an n-bit field (resolution 1, wide range)"""
+    rows = residual(program, 'decode_number', {'data_raw': D, 'bit_offset': OFF, 'bit_length': C(n), 'signed': C(signed), 'resolution': C(1),
+                                                'min_value': C(-(1 << 70)), 'max_value': C(1 << 70)})
+    mp1 = {f: R for f in extract_forms(OFF, n)}
+    r1 = norm_rows(rows, [mp1])
+    if signed:
+        r1 = norm_rows(r1, [{f: S for f in sign_forms(n)}])
+    X = S if signed else R
+    for (k, gs, v, ln) in r1:
+        if k == 'return' and v == NONE and len(gs) == 1 and gs[0][0] == 'cmp' and gs[0][1] == '==':
+            a, b = gs[0][2], gs[0][3]
+            if a == X and sym.is_const(b):
+                return b[1], ln
+            if b == X and sym.is_const(a):
+                return a[1], ln
+    return None, rows[0][3] if rows else 0
+
+def decoder_wrap(program, n):
+    """the constant subtracted by the decoder's sign extension"""
+    rows = residual(program, 'decode_number', {'data_raw': D, 'bit_offset': OFF, 'bit_length': C(n), 'signed': C(True), 'resolution': C(1),
+                                                'min_value': C(-(1 << 70)), 'max_value': C(1 << 70)})
+    r1 = norm_rows(rows, [{f: R for f in extract_forms(OFF, n)}])
+    for (k, gs, v, ln) in r1:
+        for t in list(gs) + [v]:
+            for s_ in sym.walk(t):
+                if s_[0] == 'ite' and s_[3] == R and s_[2][0] == 'binop' and s_[2][1] == '-' and s_[2][2] == R and sym.is_const(s_[2][3]):
+                    return s_[2][3][1]
+                if s_[0] == 'ite' and s_[3] == R and s_[2][0] == 'binop' and s_[2][1] == '+' and sym.is_const(s_[2][2]) and s_[2][3] == R:
+                    return -s_[2][2][1]
+    return None
+
+def encode_time_na(program, n, signed):
+    fn = helpers(program).get('encode_time')
+    if fn is None:
+        raise AnalysisError('anchor utils.encode_time vanished')
+    params = [a.arg for a in fn.args.args]
+    bind = {params[0]: V, params[1]: C(n)}
+    takes_signed = len(params) >= 3
+    if takes_signed:
+        bind[params[2]] = C(signed)
+    rows = residual(program, 'encode_time', bind)
+    none_cond = cn(('cmp', 'is', V, NONE))
+    for (k, gs, v, ln) in rows:
+        if k == 'return' and gs == (none_cond,) and sym.is_const(v):
+            return v[1], ln, takes_signed
+    return None, (rows[0][3] if rows else 0), takes_signed
+
+def sent_sign_agree(chk, program):
+    """SENT-AGREE / SIGN-AGREE: decoder and encoders agree on the not-available code and on two's complement"""
+    db = program.db
+    nt = enc_number_tuples(db)
+    pairs = sorted({(n, s) for (n, s, r) in nt})
+    for (n, s) in pairs:
+        dna, dl = decoder_na(program, n, s)
+        res = sorted({r for (n2, s2, r) in nt if (n2, s2) == (n, s)}, key=repr)[0]
+        f = encode_number_facts(program, n, s, res)
+        users = [u for (n2, s2, r), us in nt.items() if (n2, s2) == (n, s) for u in us]
+        inst = f"bits={n},signed={s}"
+        if n < 2 and dna is None and f['na'] is not None:
+            # 1-bit fields: the decoder has no not-available code; nothing to agree on
+            chk.ok('SENT-AGREE', f"encode_number::{inst}", file=UT, line=f['line'], nontrivial=False)
+        else:
+            chk.check(dna is not None and dna == f['na'], 'SENT-AGREE', f"encode_number::{inst}", file=UT, line=f['line'], func='encode_number',
+                      expected=f"encoder's pattern for None == decoder's `raw == K -> None` constant ({dna})", found=f['na'],
+                      detail=f"{len(users)} encodable fields, e.g. {users[0][0].key}:{users[0][1].dbid}")
+        if s:
+            dw = decoder_wrap(program, n)
+            chk.check(dw is not None and dw == f['wrap'], 'SIGN-AGREE', f"encode_number::{inst}", file=UT, line=f['line'], func='encode_number',
+                      expected=f"negative values wrapped by +{dw} (inverse of the decoder's -{dw})", found=f['wrap'])
+        else:
+            chk.check(f['wrap'] == 0, 'SIGN-AGREE', f"encode_number::{inst}", file=UT, line=f['line'], func='encode_number',
+                      expected='no wrap for an unsigned field', found=f['wrap'], nontrivial=False)
+    tt = enc_time_tuples(db)
+    for (n, s), users in sorted(tt.items()):
+        dna, dl = decoder_na(program, n, s)
+        ena, el, takes_signed = encode_time_na(program, n, s)
+        # do the generated call sites pass the signedness on?  (checked per site in GEN-ENC via absent_signed)
+        for (d, f) in users:
+            chk.check(dna is not None and ena == dna, 'SENT-AGREE', f"encode_time::encode_pgn_{d.suffix}::{f.id}", file=UT, line=el, func='encode_time',
+                      expected=f"pattern for an absent {'signed' if s else 'unsigned'} {n}-bit time/duration == decoder's not-available code {dna}",
+                      found=ena, detail=('encode_time ignores signedness: all-ones decodes to -1 tick, not to absent' if s and ena == (1 << n) - 1 else ''))
+    chk.unit('sentinel_pairs', len(pairs) + len(tt))
+
+def enc_range(chk, program):
+    """ENC-RANGE / ENC-NA on the encode_number residual at every (BitLength, Signed, Resolution) of an encodable NUMBER/PGN field"""
+    db = program.db
+    nt = enc_number_tuples(db)
+    for (n, s, res), users in sorted(nt.items(), key=lambda kv: repr(kv[0])):
+        f = encode_number_facts(program, n, s, res)
+        inst = f"encode_number@bits={n},signed={s},res={res}"
+        us = f"{len(users)} fields, e.g. {users[0][0].key}:{users[0][1].dbid}"
+        for p in f['problems']:
+            chk.unknown('ENC-RANGE', inst, p, UT, f['line'])
+        if f['problems']:
+            continue
+        lo, hi = (-(1 << (n - 1)), (1 << (n - 1)) - 2) if s else (0, (1 << n) - 2)
+        if n < 2:
+            hi = (1 << n) - 1 if not s else hi
+        iv = f['interval']
+        if iv is None:
+            chk.violation('ENC-RANGE', inst, file=UT, line=f['line'], func='encode_number', expected=f"raise ValueError unless {lo} <= round(value/res) <= {hi}, before any return",
+                          found='no recognisable range test before the return', detail=us)
+        else:
+            okk = (iv[0] == lo and iv[1] in ((hi,) if n >= 2 else (hi, hi - 1))) and f['order_ok'] and f['raise_type'] == 'ValueError'
+            chk.check(okk, 'ENC-RANGE', inst, file=UT, line=f['line'], func='encode_number',
+                      expected={'interval': [lo, hi], 'raise': 'ValueError', 'before_every_return': True},
+                      found={'interval': list(iv), 'raise': f['raise_type'], 'before_every_return': f['order_ok']}, detail=us)
+        chk.check(f['conv'] == 'round', 'ROUND', inst, file=UT, line=f['line'], func='encode_number', expected='int(round(value / resolution))', found=f['conv'], detail=us)
+        chk.check(f['na'] == expected_na(n, s) or n < 2, 'ENC-NA', inst, file=UT, line=f['line'], func='encode_number',
+                  expected=expected_na(n, s), found=f['na'], detail='pattern written for an absent value; ' + us)
+    chk.unit('encode_number_residuals', len(nt))
+    chk.floor('encode_number_residuals', len(nt), 40)
+
+# ---------------------------------------------------------------------------
+def help_siblings(chk, program, rule='HELP-SIB'):
+    """decode_float/encode_float share struct formats; decode_date/encode_date share the epoch; decode_time's
+    decomposition is the inverse of encode_time's affine form"""
+    hs = helpers(program)
+    def struct_formats(name):
+        fn = hs.get(name)
+        if fn is None:
+            raise AnalysisError(f"anchor utils.{name} vanished")
+        out = {}
+        for n in ast.walk(fn):
+            if isinstance(n, ast.Call) and isinstance(n.func, ast.Attribute) and n.func.attr in ('pack', 'unpack') and n.args and isinstance(n.args[0], ast.Constant):
+                out[n.func.attr] = n.args[0].value
+        return out
+    df, ef = struct_formats('decode_float'), struct_formats('encode_float')
+    chk.check(df.get('pack') == ef.get('unpack') and df.get('unpack') == ef.get('pack') and df.get('pack') in ('<I', '=I', 'I') and df.get('unpack') in ('<f', '=f', 'f'),
+              rule, 'float-formats', file=UT, line=hs['decode_float'].lineno, expected={'decode': {'pack': '<I', 'unpack': '<f'}, 'encode': {'pack': '<f', 'unpack': '<I'}},
+              found={'decode': df, 'encode': ef})
+    def epoch(name):
+        fn = hs.get(name)
+        if fn is None:
+            raise AnalysisError(f"anchor utils.{name} vanished")
+        for n in ast.walk(fn):
+            if isinstance(n, ast.Call) and isinstance(n.func, ast.Name) and n.func.id == 'date' and len(n.args) == 3 and all(isinstance(a, ast.Constant) for a in n.args):
+                return tuple(a.value for a in n.args)
+        return None
+    de, ee = epoch('decode_date'), epoch('encode_date')
+    chk.check(de == ee == (1970, 1, 1), rule, 'date-epoch', file=UT, line=hs['decode_date'].lineno, expected=[1970, 1, 1], found={'decode': de, 'encode': ee},
+              detail='database DATE = days since 1970-01-01')
+    # encode_time affine: hour*3600 + minute*60 + second
+    p0 = [a.arg for a in hs['encode_time'].args.args][0]
+    bind = {p0: V}
+    for extra in [a.arg for a in hs['encode_time'].args.args][1:]:
+        bind[extra] = C(16) if extra != 'signed' else C(False)
+    rows = residual(program, 'encode_time', bind)
+    coeffs = None
+    for (k, gs, v, ln) in rows:
+        if k == 'return' and not sym.is_const(v):
+            coeffs = _affine_attrs(v)
+    chk.check(coeffs == {'hour': 3600, 'minute': 60, 'second': 1}, rule, 'encode_time-affine', file=UT, line=hs['encode_time'].lineno,
+              expected={'hour': 3600, 'minute': 60, 'second': 1}, found=coeffs)
+    # decode_time: hours = s // 3600; minutes = (s % 3600) // 60; seconds = s % 60
+    fn = hs['decode_time']
+    ex = sym.SymExec(fn)
+    try:
+        ex.run()
+    except sym.Unsupported as u:
+        raise AnalysisError(f"utils.decode_time: {u}")
+    found = {}
+    for ev in ex.events:
+        if ev[0] == 'return' and ev[2][0] == 'call' and ev[2][1] == ('name', 'time'):
+            kws = dict(ev[2][3])
+            if all(k in kws for k in ('hour', 'minute', 'second')) and not all(sym.is_const(v) for v in kws.values()):
+                found = {k: show(_strip_int(v, ex.params[0])) for k, v in kws.items()}
+    s = '$s'
+    exp = {'hour': f"({s} // 3600)", 'minute': f"(({s} % 3600) // 60)", 'second': f"({s} % 60)"}
+    chk.check(found == exp, rule, 'decode_time-decomposition', file=UT, line=fn.lineno, expected=exp, found=found,
+              detail='inverse of 3600*h + 60*m + s')
+
+def _strip_int(t, p):
+    """int(param) -> $s"""
+    mp = {('call', ('name', 'int'), (('param', p),), ()): ('name', '$s'), ('param', p): ('name', '$s')}
+    return subst(t, mp)
+
+def _affine_attrs(t):
+    """a.hour*3600 + a.minute*60 + a.second -> {'hour':3600,...}"""
+    out = {}
+    def leaves(x):
+        if x[0] == 'binop' and x[1] == '+':
+            return leaves(x[2]) + leaves(x[3])
+        return [x]
+    for l in leaves(t):
+        k = 1
+        x = l
+        if x[0] == 'binop' and x[1] == '*':
+            if sym.is_const(x[2]):
+                k, x = x[2][1], x[3]
+            elif sym.is_const(x[3]):
+                k, x = x[3][1], x[2]
+        if x[0] == 'attr' and x[1] == V:
+            out[x[2]] = out.get(x[2], 0) + k
+        else:
+            return None
+    return out
+
+def enc_range_round_only(chk, program):
+    """ROUND on encode_number (C02 uses only this clause of the residual)"""
+    db = program.db
+    nt = enc_number_tuples(db)
+    for (n, s, res), users in sorted(nt.items(), key=lambda kv: repr(kv[0])):
+        f = encode_number_facts(program, n, s, res)
+        inst = f"encode_number@bits={n},signed={s},res={res}"
+        chk.check(f['conv'] == 'round', 'ROUND', inst, file=UT, line=f['line'], func='encode_number', expected='int(round(value / resolution))', found=f['conv'],
+                  detail=f"{len(users)} fields, e.g. {users[0][0].key}:{users[0][1].dbid}")
